@@ -12,8 +12,10 @@ import threading
 import types
 from typing import Any
 
+import cascade.shm.api as API
 import cascade.shm.dataset as DSM
 import cascade.shm.disk as DISK
+import cascade.shm.server as SRV
 
 STALE_NS = int(16 * 60 * 1e9)
 
@@ -78,6 +80,44 @@ class GateLock:
     # threading.Lock API used nowhere else in Manager for pageout_one
 
 
+class _StopServing(BaseException):
+    pass
+
+
+class ServerFront:
+    """The real cascade.shm.server.LocalServer request loop over a scripted socket: one encoded request in, one encoded
+    response out (so the wire encoding of shm/api.py and the dispatch / error capture of server.py are part of the binding)."""
+
+    def __init__(self, manager):
+        front = self
+        self.inq: list[bytes] = []
+        self.out: list[bytes] = []
+
+        class Sock:
+            def recvfrom(self, n):
+                if not front.inq:
+                    raise _StopServing
+                return front.inq.pop(0), ("client", 1)
+
+            def sendto(self, b, addr):
+                front.out.append(b)
+
+            def close(self):
+                pass
+
+        self.srv = SRV.LocalServer.__new__(SRV.LocalServer)
+        self.srv.sock = Sock()
+        self.srv.manager = manager
+
+    def call(self, comm):
+        self.inq.append(API.ser(comm))
+        try:
+            self.srv.start()
+        except _StopServing:
+            pass
+        return API.deser(self.out.pop(0))
+
+
 class Job:
     def __init__(self, kind, key, shmid, size, cb):
         self.kind, self.key, self.shmid, self.size, self.cb = kind, key, shmid, size, cb
@@ -102,6 +142,7 @@ class Driver:
         DISK.open = _failing_open
         self.m = DSM.Manager("t", cap)
         self.m.pageout_one = GateLock()
+        self.front = ServerFront(self.m)
         self.jobs: list[Job] = []
         d = self.m.disk
         self.key_of_shmid: dict[str, str] = {}
@@ -130,7 +171,8 @@ class Driver:
         m = self.m
         if act == "Add":
             k = last[1]
-            shmid, err = m.add(k, self.sizes[k], f"deser-{k}")
+            resp = self.front.call(API.AllocateRequest(key=k, l=self.sizes[k], deser_fun=f"deser-{k}"))
+            shmid, err = resp.shmid, resp.error
             if not err:
                 self.shmid[k] = shmid
                 self.key_of_shmid[shmid] = k
@@ -149,14 +191,14 @@ class Driver:
                 if ds.shmid in FakeSeg.segs:
                     FakeSeg.segs[ds.shmid][:] = b          # the writer's bytes, through its own mapping
                 self.written[k] = b
-            try:
-                m.close_callback(k, "")
-                return "ok"
-            except Exception:
-                return "error"
+            resp = self.front.call(API.CloseCallback(key=k, rdid=""))
+            return "error" if resp.error else "ok"
         if act == "Get":
             k = last[1]
-            shmid, l, rdid, deser, err = m.get(k)
+            resp = self.front.call(API.GetRequest(key=k))
+            if isinstance(resp, API.OkResponse):          # the server captured an exception
+                return ("error",)
+            shmid, l, rdid, deser, err = resp.shmid, resp.l, resp.rdid, resp.deser_fun, resp.error
             if err:
                 return (err,)
             self.readers[k].append((rdid, Clock.t))
@@ -169,16 +211,20 @@ class Driver:
             if not cands:
                 return "no-such-reader"
             r = cands[0]
-            try:
-                m.close_callback(k, r[0])
-                self.readers[k].remove(r)
-                if k not in m.datasets:
-                    self.readers[k] = []
-                return "ok"
-            except Exception:
+            resp = self.front.call(API.CloseCallback(key=k, rdid=r[0]))
+            if resp.error:
                 return "error"
+            self.readers[k].remove(r)
+            if k not in m.datasets:
+                self.readers[k] = []
+            return "ok"
+        if act == "AskFree":
+            return self.front.call(API.FreeSpaceRequest()).free_space
+        if act == "AskStatus":
+            resp = self.front.call(API.DatasetStatusRequest(key=last[1]))
+            return "error" if isinstance(resp, API.OkResponse) else resp.status.name
         if act == "Purge":
-            m.purge(last[1])
+            self.front.call(API.PurgeRequest(key=last[1]))
             if last[1] not in m.datasets:
                 self.readers[last[1]] = []
             return "ok"
@@ -316,6 +362,10 @@ def spec_projection(s: dict) -> dict:
 
 def expected_answer(last: tuple):
     act = last[0]
+    if act == "AskFree":
+        return last[1]
+    if act == "AskStatus":
+        return last[2]
     if act in ("Add", "CloseWrite", "Purge"):
         return last[2]
     if act == "CloseRead":
